@@ -214,7 +214,13 @@ def run(ctx):
         env2 = dict(env)
         if ubvar is not None and base is not None:
             env2[ubvar] = ('ptr', base[1], {'U': 1})
-        flow = PtrFlow(g, keys, F.never_written, seeds={ubvar: ('ptr', base[1], {'U': 1})} if ubvar is not None and base is not None else None)
+        ubd_ = u.by_id.get(ubvar) if ubvar is not None else None
+        direct_ = ubd_ is not None and kids(ubd_) and (peel(kids(ubd_)[-1]) is ub[0] or peel(kids(ubd_)[-1]) is peel(ub[0]))
+        if not direct_ and ubvar in env2:
+            del env2[ubvar]         # (the local holds an index computed from the result: followed by PtrFlow)
+        flow = PtrFlow(g, keys, F.never_written,
+                       seeds={ubvar: ('ptr', base[1], {'U': 1})} if direct_ and base is not None else None,
+                       seed_calls=[(ub[0], ('ptr', base[1], {'U': 1}))] if base is not None else None)
         sel = None
         for rn in g.returns:
             for x in F.walk_ident(rn.ast):
